@@ -35,6 +35,9 @@ class KModule:
         t = open(os.path.join(VERIF, "contracts/kani", self.contract)).read()
         t = t.replace("/*@@GENERATED:%s@@*/" % self.key, self.generated())
         if self.key == "index":
+            t = t.replace("/*@@GENERATED:index3@@*/", "\n".join(
+                "logwriter_harness!(u3_insert_replace_i%d, u3_insert_body(1, %d));\nlogwriter_harness!(u3_remove_i%d, u3_remove_body(%d));" % (i, i, i, i)
+                for i in range(64)))
             t = t.replace("/*@@GENERATED:index2@@*/", "\n".join(
                 "reader_harness!(#[kani::unwind(%d)] u9_index_pop%d, u9_index_body(%d));" % (k + 2, k, k) for k in U9_POP))
         return t
@@ -86,8 +89,10 @@ M_INDEX.harnesses.append(H("u4_reindex", "U4"))
 M_INDEX.harnesses.append(H("u4_migrate", "U4"))
 M_INDEX.harnesses.append(H("canary_u4", "U4", kind="canary"))
 M_INDEX.harnesses.append(H("u3_insert_new", "U3"))
-M_INDEX.harnesses.append(H("u3_insert_replace", "U3"))
-M_INDEX.harnesses.append(H("u3_remove", "U3"))
+for i in range(64):
+    tr = ("quick", "thorough") if i in (0, 37, 63) else ("thorough",)
+    M_INDEX.harnesses.append(H("u3_insert_replace_i%d" % i, "U3", tiers=tr, shape="plan_insert_chunk replacing slot %d" % i))
+    M_INDEX.harnesses.append(H("u3_remove_i%d" % i, "U3", tiers=tr, shape="plan_remove_chunk at slot %d" % i))
 M_INDEX.harnesses.append(H("canary_u3", "U3", kind="canary"))
 for k in U9_POP:
     M_INDEX.harnesses.append(H("u9_index_pop%d" % k, "U9", tiers=("quick", "thorough") if k in (0, 1, 2, 3, 64) else ("thorough",),
@@ -342,7 +347,49 @@ PROPS["C10"] = {
     "does_not_cover": ["claim_tree_values / claim_node bodies", "node reference counts, reclamation", "multi-part nodes"],
 }
 
+PROPS["C08"] = {
+    "kani_units": [],
+    "verus_units": ["overlay_publish"],
+    "syntactic": ["commit_raw_checks_before_publish"],
+    "level": "other",
+    "technique": "Verus contracts on the real validation (check) and publication (copy_to_overlay) functions of both change-set kinds, extracted from /repo on every run",
+    "claim": "For hash and btree change sets: check() accepts exactly the transactions all of whose operations are valid for the column (Set/Dereference; Reference only with reference counting; no tree operation); copy_to_overlay never fails on a transaction that passed check() (publication cannot stop half way), publishes exactly the in-order fold of the operations tagged with the commit id (last operation on a key wins) and leaves the other overlays untouched. That commit_raw runs every check() before taking a commit id and publishing is checked syntactically on the function text (reported as an assumption, not a proof). The defect this exposed was fixed (4d64658).",
+    "level_note": "Trusted: std HashMap/BTreeMap insert contract on opaque overlay types; RcValue::clone returns an equal value; byte counters do not overflow for memory-resident data (explicit precondition). Not covered: claimed node slots / to_dereference counters taken in commit_changes before a later operation fails, background-error state, persistence.",
+    "trusted_base": TB,
+    "explanation": "Verus, unbounded over operation lists; modular over the map contracts. Level 'other' because the step from commit_raw to these functions is a syntactic check and multi-stage visibility is not mechanised.",
+    "does_not_cover": ["side effects of commit_changes before commit_raw (claimed node slots, to_dereference)", "bg_err state", "clean_overlay (Entry API)"],
+}
+PROPS["C07"] = {
+    "kani_units": [],
+    "verus_units": ["ref_counter", "overlay_publish"],
+    "level": "other",
+    "technique": "Verus proof of the counter transition fragment of the real change_ref (all u32 counters) and of the overlay mirroring rules",
+    "claim": "The counter transition applied by change_ref is, for every 32-bit counter: +1 (saturating into the lock value u32::MAX), locked stays locked, -1 while >= 2, and 'remove' (nothing written, false returned) when the count would reach zero; Reference / ref-counted Dereference are never mirrored in the commit overlay while Set is (U10). The per-operation dispatch (write_existing_value_plan) and histories are not covered.",
+    "level_note": "The transition is proved on a verbatim fragment of change_ref's body (rule R8) wrapped by a hand-written function: the buffer handling around it (32 KiB entry buffer, to_vec) is outside Verus' subset and exhausts CBMC. Trusted: Buf::read_rc returns the stored counter (U5.rc.roundtrip, proved by Kani under C06).",
+    "trusted_base": TB,
+    "explanation": "Verus, complete over all u32 counters for the extracted fragment; 'other' because the surrounding function and the operation dispatch are not under contract.",
+    "does_not_cover": ["write_existing_value_plan dispatch", "ignored on absent keys (HashColumn::write_plan)", "histories, restarts, value iteration with counts", "frame of change_ref (other entry bytes untouched)"],
+}
+
 UNIT_META = {
+    "U5": {"functions": ["table::Entry::{write_size,read_size,write_next,read_next,write_rc,read_rc,write_u64,read_u64,write_u32,read_u32,skip_size,skip_next,write_tombstone,write_multipart,write_multihead,write_multihead_compressed,is_tombstone,is_multipart,is_multihead,is_multihead_compressed,is_multi}",
+                         "table::Header::{last_removed,set_last_removed,filled,set_filled}", "table::ValueTable::{value_size,ref_size}", "table::TableId::{new,col,size_tier,log_index,from_log_index}", "table::key::TableKey::encoded_size"], "assumes": []},
+    "U6": {"functions": ["table::ValueTable::{overwrite_chain,write_insert_plan,write_replace_plan,write_claimed_plan,next_free,read_next_free,read_next_part,clear_chain,clear_slot}",
+                         "table::ValueTable::{for_parts,query,size,partial_key_at,has_key_at,is_tombstone}", "table::key::TableKey::{write,fetch,fetch_partial,compare}"],
+           "assumes": ["LogWriter::{insert_value,value,value_ref} replaced by a ghost view implementing their contract (finite map, last write wins)",
+                       "fmt::format stub (error text outside every claim)", "parking_lot slow paths unreachable (stubs panic: a checked side condition)"]},
+    "U7": {"functions": ["column::Column::compress", "column::SIZES"], "assumes": ["compress is exercised with NoCompression; lz4/snappy are trusted to be inverse"]},
+    "U8": {"functions": ["table::ValueTable::change_ref (counter-transition fragment)"], "assumes": ["fragment wrapped by a hand-written function (rule R8)"]},
+    "U9": {"functions": ["table::ValueTable::validate_plan", "index::IndexTable::{validate_plan,skip_plan}"],
+           "assumes": ["LogReader::read replaced by its contract (arbitrary bytes or failure)", "crc32fast::Hasher::new stubbed by its portable constructor"]},
+    "U11": {"functions": ["column::{unpack_node_data,unpack_node_children,packed_node_size,packed_child_count}"], "assumes": []},
+    "U14": {"functions": ["table::ValueTable::{clear_slot,next_free,read_next_free,complete_plan,write_remove_plan,clear_chain}"], "assumes": ["LogWriter ghost view"]},
+    "index_search": {"functions": ["index::Entry::*", "index::Address::*", "index::IndexTable::{chunk_index,find_entry_base}"], "assumes": ["read_entry contract (external_body; proved by Kani U1.read_entry_is_le_word)"]},
+    "lookup_chain": {"functions": ["column::HashColumn::{get_in_index,contains_partial_key_with_address}"],
+                     "assumes": ["IndexTable::get = U2's search contract lifted through with_index/mmap (external_body)", "Column::get_value contract (external_body)"]},
+    "overlay_publish": {"functions": ["db::IndexedChangeSet::{check,copy_to_overlay}", "btree::commit_overlay::BTreeChangeSet::{check,copy_to_overlay}"],
+                        "assumes": ["std map insert contract on opaque overlay types", "RcValue::clone/value contracts", "byte counters bounded (precondition)"]},
+    "ref_counter": {"functions": ["table::ValueTable::change_ref (fragment)"], "assumes": ["Buf::read_rc models the entry buffer positioned at the counter"]},
     "U1": {
         "functions": ["index::Entry::{new,address_bits,last_address,address,partial_key,extract_key,is_empty,empty,as_u64,from_u64}",
                       "index::Address::{new,from_u64,offset,size_tier,as_u64}",
